@@ -54,6 +54,14 @@ def cases(tier, seed):
         out.append({"kind": "random", "i": i, "seed": seed, "n": per})
     for i in range(16 if tier == "quick" else 100):
         out.append({"kind": "cq", "i": i, "seed": seed, "n": 20})
+    # online checkers at hooks (vlib/container_hooks.py) while the REAL Solver drives the containers: generated scenarios,
+    # the repository's example scripts and its own container / solving tests
+    for i in range(48 if tier == "quick" else 1200):
+        out.append({"kind": "hooked-solver", "i": i, "seed": seed, "tier": tier})
+    from vlib import ambient
+    for c in ambient.ambient_cases(tier):
+        out.append({"kind": "hooked-ambient", "amb": c})
+    out.append({"kind": "hooked-ambient", "amb": {"ambient": "unittest", "path": "test/iOpt/method/test_search_data.py", "filter": None}})
     return out
 
 
@@ -223,7 +231,49 @@ def run_history(cls, ml, hist):
     return applied, h
 
 
+def run_hooked(c):
+    from vlib import container_hooks as ch, record, ambient
+    viol, obs, keys = [], {}, []
+    if c["kind"] == "hooked-solver":
+        rng = scenario.rng_for(c["seed"], "C19h", c["i"])
+        scn = scenario.gen_scenario(rng, max_iters=300 if c["tier"] == "quick" else 1500)
+        u = rng.random()
+        if u < 0.3:
+            scn["pattern"] = [["iter", int(v)] for v in rng.integers(1, 20, int(rng.integers(1, 8)))] + [["solve"]]
+        elif u < 0.5:
+            scn["pattern"] = [["solve"], ["set", "itersLimit", scn["iters"] + int(rng.integers(5, 200))], ["solve"]]
+        elif u < 0.6:
+            scn["pattern"] = [["iter", 5], ["local", 9], ["iter", 30], ["solve"]]
+        with ch.enabled():
+            t = record.run_solver(scn, listener=False)
+            if not t.fp_exhausted:
+                ch.full_traversal(t.solver.searchData, "end of run")
+            viol = [dict(v, scenario=scenario.short(scn)) for v in ch.VIOL]
+            obs = dict(ch.STATS)
+        obs["hooked_solver_runs"] = 1
+        keys = ["hooked|%d|%d" % (c["i"], obs.get("hook_inserts", 0))]
+        sample = dict(scenario.short(scn), hooks=dict(obs)) if c["i"] < 2 else None
+    else:
+        a = c["amb"]
+        import os
+        path = os.path.join(os.environ.get("IOPT_REPO", "/repo"), a["path"])
+        with ch.enabled():
+            if a["ambient"] == "script":
+                recs, out, err = ambient.run_script(path)
+            else:
+                recs, out, res = ambient.run_unittest(path, a.get("filter"))
+            viol = [dict(v, workload=a["path"]) for v in ch.VIOL]
+            obs = dict(ch.STATS)
+        obs["hooked_ambient_workloads"] = 1
+        obs["hooked_ambient_kinds"] = [a["path"]]
+        keys = ["hooked-ambient|%s|%d" % (a["path"], obs.get("hook_inserts", 0) + obs.get("hook_queue_inserts", 0))]
+        sample = {"kind": "hooked ambient workload", "workload": a["path"], "hooks": {k: v for k, v in obs.items() if isinstance(v, int)}}
+    return {"violations": viol, "obs": obs, "nontrivial": obs.get("hook_queue_pops", 0) + obs.get("hook_inserts", 0) > 0, "keys": keys, "sample": sample}
+
+
 def run_case(c):
+    if c["kind"].startswith("hooked"):
+        return run_hooked(c)
     viol = []
     obs = {}
     keys = []
@@ -366,7 +416,9 @@ def run_case(c):
 
 
 def finalize(obs, tier, stats):
-    for k in ("histories_exhaustive", "histories_random", "histories_queue", "best_requests", "lookups", "bounded_histories", "cq_best"):
+    for k in ("histories_exhaustive", "histories_random", "histories_queue", "best_requests", "lookups", "bounded_histories", "cq_best",
+              "hooked_solver_runs", "hooked_ambient_workloads", "hook_queue_pops", "hook_inserts_with_hint", "hook_inserts_without_hint",
+              "hook_queue_clears", "hook_full_traversals", "hook_lookups", "hook_pops_with_ties"):
         if not obs.get(k):
             return "%s never observed" % k, {}
     amb = obs.get("ambiguous", 0)
